@@ -497,6 +497,11 @@ type Evidence struct {
 }
 
 func (c *Ctx) WriteEvidence() error {
+	for _, k := range []string{"GV_ONLY", "GV_RANDOM_ONLY", "GV_REPO"} {
+		if v := os.Getenv(k); v != "" {
+			c.Notes = append(c.Notes, fmt.Sprintf("PARTIAL OR REDIRECTED RUN: %s=%q (a development aid; the registered commands never set it)", k, v))
+		}
+	}
 	sort.Slice(c.Samples, func(i, j int) bool {
 		if c.Samples[i].Job != c.Samples[j].Job {
 			return c.Samples[i].Job < c.Samples[j].Job
